@@ -110,8 +110,12 @@ type recorder struct {
 	frng      *rand.Rand
 	fmu       sync.Mutex
 	// measured
-	toks       int // conclusions completed (finished token offered) since the recording started
-	dips       int // counter observed below zero
+	// bracket around an operation on / a read of a module's microtask counter (held with mu by one goroutine)
+	modKind    string // "" | "inc" | "dec" | "chk"
+	modIdx     int
+	modOuter   bool // the goroutine held the mutex already (high priority: bracket around its own global increment)
+	toks       int  // conclusions completed (finished token offered) since the recording started
+	dips       int  // counter observed below zero
 	forcedHits int
 }
 
@@ -203,7 +207,12 @@ func (r *recorder) sched(kind string, a, b int64, ch any) {
 // linearisation. Blocking operations are logged before (send) or after (receive) they happen.
 func (r *recorder) sink(point string, args ...any) {
 	if !strings.HasPrefix(point, "mt:") && !strings.HasPrefix(point, "yield:mt:") {
-		return // hooks of other properties (C01/C05/C06/C07 share the package): not ours, must not touch a bracket
+		// hooks of other properties (C01/C05/C06/C07 share the package) must not touch a bracket; of the stop
+		// protocol's hooks the few around the module's microtask counter and the stop/start steps are used
+		if stopProtoPoints[point] {
+			r.stopProto(point, args...)
+		}
+		return
 	}
 	g := gid()
 	held := r.holder.Load() == g
@@ -216,10 +225,8 @@ func (r *recorder) sink(point string, args ...any) {
 	case "yield:mt:pre-inc":
 		keep = true
 	case "mt:begin":
-		if held { // high priority: closes the bracket around its own increment
-			r.add(rawEv{g: g, kind: "hinc", a: cntNow()})
-		}
-		r.add(rawEv{g: g, kind: "begin"})
+		// the begin event (and, for high priority, the own increment before it) was logged inside the bracket
+		// around the module increment, see stopProto; this hook only closes a high-priority bracket
 	case "mt:timeout-enqueue":
 		r.add(rawEv{g: g, kind: "tmoenq", a: cntNow()})
 	case "mt:timeout-wait":
@@ -234,8 +241,7 @@ func (r *recorder) sink(point string, args ...any) {
 		}
 		r.add(e)
 	case "yield:mt:conclude":
-		r.add(rawEv{g: g, kind: "moddec"})
-		keep = true
+		keep = true // the module decrement was logged inside its own bracket, see stopProto
 	case "mt:concluded":
 		c := cntNow()
 		if c < 0 {
@@ -286,6 +292,100 @@ func (r *recorder) sink(point string, args ...any) {
 	if point == "mt:sched-full" {
 		// between the guard's "full" and the wait for the finished token: the lost-wake-up window
 		r.delay("sched-full")
+	}
+}
+
+// stopProtoPoints are the hooks of the module stop protocol (placed for C05) that the C15 trace uses.
+var stopProtoPoints = map[string]bool{
+	"pre:inc:m": true, "pre:dec:m": true, "post": true, // bracket around AddInt32(m.microTaskCnt, ±1)
+	"pre:cFast": true,                                      // checkIfStopComplete begins
+	"mid:cM":    true, "mid:cCas": true, "post:fail": true, // … its read of the microtask counter and what followed
+	"pre:stopBegin": true, "pre:sFlag": true, "ev:sWake": true, "ev:sTimeout": true, "pre:sOffline": true, "pre:startBegin": true,
+}
+
+func modIndex(args []any) int {
+	if len(args) >= 1 {
+		if n, ok := args[0].(string); ok {
+			for i, mn := range modNames {
+				if mn == n {
+					return i
+				}
+			}
+		}
+	}
+	return -1
+}
+
+func modCnt(k int) int64 {
+	if k >= 0 && k < len(mods) {
+		return int64(mods[k].VerifMicroTaskCnt())
+	}
+	return -99999
+}
+
+// stopProto handles the stop-protocol hooks. Operations on a module's microtask counter are bracketed like the
+// ones on the global counter (hook before: take the mutex; hook after: log with the real value, release), so the
+// values in the log are exact and the log is a linearisation of both counters. The read of the counter by
+// checkIfStopComplete is bracketed from `mid:cM` to the next hook of the goroutine, which tells the outcome.
+func (r *recorder) stopProto(point string, args ...any) {
+	g := gid()
+	held := r.holder.Load() == g
+	switch point {
+	case "post", "post:fail", "mid:cCas":
+		if !held || r.modKind == "" {
+			return // closes a bracket of somebody else's protocol
+		}
+		k := r.modIdx
+		switch {
+		case r.modKind == "inc" && point == "post":
+			if r.modOuter { // high priority: the own increment of the global counter came first
+				r.add(rawEv{g: g, kind: "hinc", a: cntNow()})
+			}
+			r.add(rawEv{g: g, kind: "begin", a: modCnt(k), b: int64(k)})
+		case r.modKind == "dec" && point == "post":
+			r.add(rawEv{g: g, kind: "moddec", a: modCnt(k), b: int64(k)})
+		case r.modKind == "chk" && point == "mid:cCas":
+			r.add(rawEv{kind: "m:mcheck", a: 1, b: int64(k)})
+		case r.modKind == "chk" && point == "post:fail":
+			r.add(rawEv{kind: "m:mcheck", a: 0, b: int64(k)})
+		default:
+			return // not the hook that closes this bracket
+		}
+		r.modKind = ""
+		if !r.modOuter {
+			r.release(g)
+		}
+		return
+	}
+	k := modIndex(args)
+	if k < 0 {
+		return
+	}
+	switch point {
+	case "pre:inc:m", "pre:dec:m", "mid:cM":
+		r.acquire(g)
+		r.modKind, r.modIdx, r.modOuter = map[string]string{"pre:inc:m": "inc", "pre:dec:m": "dec", "mid:cM": "chk"}[point], k, held
+		return // keep the mutex
+	}
+	r.acquire(g)
+	switch point {
+	case "pre:cFast":
+		r.add(rawEv{g: g, kind: "stopchk", b: int64(k)})
+	case "pre:stopBegin":
+		r.add(rawEv{kind: "m:stop", b: int64(k)})
+	case "pre:sFlag":
+		r.add(rawEv{kind: "m:flag", b: int64(k)})
+	case "ev:sWake":
+		r.add(rawEv{kind: "m:wake", b: int64(k)})
+	case "ev:sTimeout":
+		r.add(rawEv{kind: "m:timeout", a: modCnt(k), b: int64(k)})
+	case "pre:sOffline":
+		r.add(rawEv{kind: "m:offline", b: int64(k)})
+	case "pre:startBegin":
+		r.add(rawEv{kind: "m:start", b: int64(k)})
+	}
+	if !held {
+		r.release(g)
 	}
 }
 
@@ -617,6 +717,7 @@ func runScenario(sc *scenario) *runResult {
 							rec.h("doneret", tid, 0)
 						}
 					}
+					rec.h("sigend", tid, 0) // this goroutine is through with the task (what it does next is not the task's)
 				}
 			}
 		}
@@ -802,7 +903,11 @@ func canon(sc *scenario, res *runResult) []string {
 		if t.Var == 2 && t.Prio != 2 && t.DelayMs == 0 {
 			zd = 1 // Signal*MicroTask(0): documented "use the default", see the recorded finding
 		}
-		lines = append(lines, fmt.Sprintf("new %d %d %d %d %d", i, t.Prio, t.Var, nilm, zd))
+		md := 0
+		if t.Mod >= 0 {
+			md = t.Mod % len(modNames)
+		}
+		lines = append(lines, fmt.Sprintf("new %d %d %d %d %d %d", i, t.Prio, t.Var, nilm, zd, md))
 	}
 	// the scheduler of the previous case is still parked in its select after a "space" decision taken at
 	// count 0; with count 0 that decision is the same under the new limit
@@ -827,7 +932,7 @@ func canon(sc *scenario, res *runResult) []string {
 			}
 			ivs[e.g] = append(ivs[e.g], iv{i, len(evs), e.tid})
 			open[e.g] = len(ivs[e.g]) - 1
-		case "h:ret", "h:started", "h:signil", "h:doneret":
+		case "h:ret", "h:started", "h:signil", "h:doneret", "h:sigend":
 			if k, ok := open[e.g]; ok {
 				ivs[e.g][k].to = i
 				delete(open, e.g)
@@ -904,6 +1009,10 @@ func canon(sc *scenario, res *runResult) []string {
 				} else {
 					d.pending++
 				}
+			case "quiet":
+				if f := strings.Fields(e.s); len(f) >= 1 {
+					lines = append(lines, fmt.Sprintf("q %d %s", e.a, f[0]))
+				}
 			case "shutdown-call":
 				sawShutdownCall = true
 			case "shutdown-ret":
@@ -938,11 +1047,27 @@ func canon(sc *scenario, res *runResult) []string {
 			}
 			continue
 		}
+		if strings.HasPrefix(e.kind, "m:") {
+			switch k := e.kind[2:]; k {
+			case "mcheck", "timeout":
+				lines = append(lines, fmt.Sprintf("m %d %s %d", e.b, k, e.a))
+			default:
+				lines = append(lines, fmt.Sprintf("m %d %s", e.b, k))
+			}
+			continue
+		}
 		tid := tidAt(e.g, i)
+		if e.kind == "stopchk" && tid < 0 {
+			continue // a stop check by somebody else (stop function, …): only its read of the counter (mcheck) is ours
+		}
 		if tid < 0 {
 			tid = 999999
 		}
 		switch e.kind {
+		case "stopchk":
+			lines = append(lines, fmt.Sprintf("t %d stopchk", tid))
+		case "begin":
+			lines = append(lines, fmt.Sprintf("t %d begin %d", tid, e.a))
 		case "submit":
 			lines = append(lines, fmt.Sprintf("t %d submit %s", tid, map[int64]string{0: "m", 1: "l"}[e.a]))
 		case "hinc", "tmoenq", "dec":
@@ -954,7 +1079,7 @@ func canon(sc *scenario, res *runResult) []string {
 			if tid < len(sc.Tasks) && sc.Tasks[tid].Var != 2 {
 				out = sc.Tasks[tid].Out
 			}
-			lines = append(lines, fmt.Sprintf("t %d moddec %d", tid, out))
+			lines = append(lines, fmt.Sprintf("t %d moddec %d %d", tid, out, e.a))
 			if tid < len(sc.Tasks) && sc.Tasks[tid].Var == 2 {
 				d := ds[tid]
 				if d == nil {
@@ -991,7 +1116,7 @@ func canon(sc *scenario, res *runResult) []string {
 	}
 	lines = append(lines, fmt.Sprintf("h final %d %s settle=%s parkedms=%d shutms=%d status:%s", res.finalCnt, strings.Join(ms, ","),
 		settle, res.parkedMs, res.shutMs, strings.ReplaceAll(res.status, " ", ";")))
-	lines = append(lines, fmt.Sprintf("end %d %d", res.finalCnt, modSum))
+	lines = append(lines, fmt.Sprintf("end %d %d %s", res.finalCnt, modSum, strings.Join(ms, ",")))
 	return lines
 }
 
@@ -1006,7 +1131,7 @@ func (execT) Do(line string) string {
 		return "bad-op"
 	}
 	switch f[0] {
-	case "scn", "lim", "new", "t", "s", "h", "shutdown", "end":
+	case "scn", "lim", "new", "t", "s", "m", "q", "h", "shutdown", "end":
 		return "ok"
 	case "child-failed", "boot-failed", "hook-order-broken":
 		return "HARNESS-ERROR " + line
@@ -1465,8 +1590,17 @@ func lifeScenario(r *hxlib.Run, class string) *scenario {
 		if variant == 1 { // stopped and not restarted: its stop flag stays set
 			op("stop", b)
 		}
+		// one of the long-running microtasks may belong to the stopping module itself: the stop has to wait for it and
+		// is completed by the check that microtask's conclusion makes
+		own := -1
+		if variant != 1 && rng.Intn(2) == 0 {
+			own = rng.Intn(sc.Lim)
+		}
 		for i := 0; i < sc.Lim; i++ { // use the limit up
 			other := []int{0, 3 - b}[rng.Intn(2)]
+			if i == own {
+				other = b
+			}
 			op("sub", addSub(addTask(task(rng.Intn(2), other, hold+rng.Intn(10000)))))
 		}
 		op("waitrun", sc.Lim)
@@ -1837,7 +1971,7 @@ func main() {
 	}
 	hxlib.Main(&hxlib.Harness{
 		Prop:     "C15",
-		Rule:     "a case is one scenario (limit 2..8 or below the minimum, 1..16 submitting goroutines, 1..120 microtasks of every priority and variant incl. nil module, run times 0..3ms, nil/error/panic outcomes, 1..4 done() calls sequential or concurrent, max delays never/default/1..3ms, forced delays at the verif yield points, shutdown in a child process, queue flood) executed on the real scheduler; its hook trace is replayed through the Lean model (acceptor, counter values compared at every bracketed operation) and the monitor checks limit / exactly-once / returned error / zero counters / settled scheduler on the harness's own observations; non-trivial = at least two tasks and at least one clearance granted (or expiries); distinct = different scenario or different interleaving (hash of the whole trace)",
+		Rule:     "a case is one scenario (limit 2..8 or below the minimum, 1..16 submitting goroutines, 1..120 microtasks of every priority and variant incl. nil module, run times 0..3ms, nil/error/panic outcomes, 1..4 done() calls sequential or concurrent, max delays never/default/1..3ms, forced delays at the verif yield points, shutdown in a child process, queue flood; module lifecycle scenarios in child processes with module management: class modstop = the limit used up by long microtasks (one of them possibly of the stopping module), then medium/low microtasks submitted by the stop function of a stopping module and/or from outside to a stopping or stopped-and-not-restarted module, restart, more traffic; class stoptmo = stop timeout 50..100 ms, microtasks of any priority/variant running before the stop or started by the stop function outlive it, optional restart while they are in flight, quiescence, a further stop of the idle module under a 3 s timeout, restart, optional shutdown) executed on the real scheduler; its hook trace is replayed through the Lean model (acceptor: global counter and each module's counter compared at every bracketed operation, every task and every module followed individually, the stop check's read of the module counter compared with the model) and the monitor checks limit / exactly-once / returned error / zero counters (at the end and at every mid-scenario quiescence) / settled scheduler / module stops and shutdown not held up on the harness's own observations; non-trivial = at least two tasks and at least one clearance granted (or expiries); distinct = different scenario or different interleaving (hash of the whole trace)",
 		Generate: gen,
 		NewExec:  func(*hxlib.Run) hxlib.Exec { return execT{} },
 		Monitor:  monitor,
